@@ -26,18 +26,18 @@ VERIF = os.path.dirname(os.path.dirname(os.path.abspath(__file__)))
 SRC = "/repo/src/typelib"
 # which checks watch which file (first = most specific)
 WATCH = {
-    "serdes.py": ["C04", "C14", "C18", "C12", "C01"],
+    "serdes.py": ["C04", "C14", "C18", "C12", "C06", "C01"],
     "ctx.py": ["C16", "C11", "C15"],
-    "graph.py": ["C09", "C07", "C11", "C15"],
+    "graph.py": ["C09", "C07", "C11", "C15", "C01"],
     "codecs.py": ["C02", "C12"],
     "api.py": ["C02", "C12"],
     "py/classes.py": ["C19"],
-    "py/inspection.py": ["C17", "C15", "C11", "C01"],
+    "py/inspection.py": ["C17", "C15", "C11", "C18", "C01"],
     "py/refs.py": ["C11", "C09", "C16"],
     "py/frames.py": ["C11", "C09"],
-    "marshals/api.py": ["C07", "C06", "C12", "C11"],
+    "marshals/api.py": ["C07", "C06", "C15", "C12", "C11"],
     "marshals/routines.py": ["C06", "C01", "C08", "C12"],
-    "unmarshals/api.py": ["C07", "C03", "C12", "C11"],
+    "unmarshals/api.py": ["C07", "C03", "C15", "C12", "C11"],
     "unmarshals/routines.py": ["C03", "C04", "C08", "C01", "C14"],
 }
 CMP = {ast.Eq: ast.NotEq, ast.NotEq: ast.Eq, ast.Lt: ast.LtE, ast.LtE: ast.Lt, ast.Gt: ast.GtE, ast.GtE: ast.Gt,
@@ -86,8 +86,7 @@ def apply(kind, node):
     elif kind == "boolop":
         node.op = ast.Or() if isinstance(node.op, ast.And) else ast.And()
     elif kind == "not":
-        node.op = ast.UAdd()  # +x is not valid for all: use a harmless double negation instead
-        node.op = ast.Not()
+        # `not x` -> `not not x` (the truth value of x): the negation is gone
         node.operand = ast.UnaryOp(op=ast.Not(), operand=node.operand)
     elif kind == "bool":
         node.value = not node.value
